@@ -259,6 +259,18 @@ def main(argv):
         problems.append({'what': 'theorems of Properties/%s.v not all closed' % prop,
                          'theorems': th['theorems'], 'log': th['log'][-3000:]})
 
+    # independent re-check of the compiled proofs (thorough tier only: about a minute per property file)
+    coqchk = None
+    if tier == 'thorough' and not a.replay and not os.environ.get('VERIF_NO_COQCHK'):
+        with Lock('coq.lock'):
+            rcc, outc = sh(['coqchk', '-silent', '-o', '-Q', 'theories', 'UF', 'UF.Properties.%s' % prop], cwd=COQ, timeout=6000)
+        summary = outc[outc.find('CONTEXT SUMMARY'):] if 'CONTEXT SUMMARY' in outc else outc[-2000:]
+        axioms_none = bool(re.search(r'\* Axioms:\s*<none>', summary))
+        coqchk = {'cmd': 'coqchk -silent -o -Q theories UF UF.Properties.%s' % prop, 'exit': rcc,
+                  'axioms_none': axioms_none, 'summary': re.sub(r'\s+', ' ', summary)[:1500]}
+        if rcc != 0 or not axioms_none:
+            problems.append({'what': 'coqchk does not accept Properties/%s.vo closed (exit %d)' % (prop, rcc), 'log': summary[-2000:]})
+
     # (b) correspondence
     okm, mexe, mlog = build_model(prop)
     if not okm:
@@ -267,19 +279,19 @@ def main(argv):
     if not okh:
         problems.append({'what': 'harness does not build against /repo (hooks or API changed)', 'log': hlog[-3000:]})
 
-    cases = os.path.join(work, 'cases.txt')
-    goout = os.path.join(work, 'go.out')
-    modelin = os.path.join(work, 'model_in.txt')
-    modelout = os.path.join(work, 'model.out')
-    statsf = os.path.join(work, 'stats.json')
-    stats = {}
-    n_eval = n_nt = n_unsup = 0
-    distinct_nt = set()
-    samples = []
-    unsup_reasons = {}
     hname = cfg.get('harness', prop.lower())
+    state = {'stats': {}, 'n_eval': 0, 'n_nt': 0, 'n_unsup': 0, 'distinct_nt': set(), 'samples': [],
+             'unsup_reasons': {}}
 
-    if okm and okh:
+    def correspond(tier_used, tag):
+        """Generate (or replay) cases, run the implementation and the model, compare.  Appends to
+        problems / violations / known_hits and updates the counters."""
+        nonlocal_stats = state
+        cases = os.path.join(work, 'cases%s.txt' % tag)
+        goout = os.path.join(work, 'go%s.out' % tag)
+        modelin = os.path.join(work, 'model_in%s.txt' % tag)
+        modelout = os.path.join(work, 'model%s.out' % tag)
+        statsf = os.path.join(work, 'stats%s.json' % tag)
         with open(cases, 'w') as cf:
             if a.replay:
                 rp = json.load(open(a.replay))
@@ -296,16 +308,16 @@ def main(argv):
                                     cf.write(l + '\n')
         if not a.replay:
             gen_tmp = cases + '.gen'
-            rc, out = sh([hexe, 'gen', hname, '-seed', str(seed), '-tier', tier, '-out', gen_tmp], timeout=3000)
+            rc, out = sh([hexe, 'gen', hname, '-seed', str(seed), '-tier', tier_used, '-out', gen_tmp], timeout=3000)
             if rc != 0:
                 problems.append({'what': 'harness gen failed', 'log': out[-3000:]})
-            else:
-                with open(cases, 'a') as cf:
-                    cf.write(open(gen_tmp).read())
-                os.remove(gen_tmp)
+                return
+            with open(cases, 'a') as cf:
+                cf.write(open(gen_tmp).read())
+            os.remove(gen_tmp)
         runenv = dict(os.environ)
         if cfg.get('race'):
-            racelog = os.path.join(work, 'race')
+            racelog = os.path.join(work, 'race' + tag)
             runenv['GORACE'] = 'log_path=%s halt_on_error=0 exitcode=0 history_size=3' % racelog
             runenv['VERIF_RACE_LOG'] = racelog
         rc, out = sh([hexe, 'run', hname, '-in', cases, '-out', goout, '-modelin', modelin, '-stats', statsf],
@@ -313,45 +325,60 @@ def main(argv):
         if rc != 0:
             # the harness itself crashed: an uncaught failure of the implementation under test
             problems.append({'what': 'harness run failed (exit %d)' % rc, 'log': out[-3000:]})
-        else:
-            stats = json.load(open(statsf))
-            okr, errs = run_model(mexe, modelin, modelout, shards=cfg.get('shards', 8))
-            if not okr:
-                problems.append({'what': 'model driver failed', 'log': errs})
-            else:
-                cl = open(cases).read().split('\n')
-                gl = open(goout).read().split('\n')
-                ml = open(modelout).read().split('\n')
-                for x in (cl, gl, ml):
-                    if x and x[-1] == '':
-                        x.pop()
-                cl = [l for l in cl if l != '']
-                if not (len(cl) == len(gl) == len(ml)):
-                    problems.append({'what': 'line count mismatch cases=%d go=%d model=%d' % (len(cl), len(gl), len(ml))})
+            return
+        st = json.load(open(statsf))
+        for k, v in st.get('counters', {}).items():
+            state['stats'][k] = state['stats'].get(k, 0) + v
+        okr, errs = run_model(mexe, modelin, modelout, shards=cfg.get('shards', 8))
+        if not okr:
+            problems.append({'what': 'model driver failed', 'log': errs})
+            return
+        cl = open(cases).read().split('\n')
+        gl = open(goout).read().split('\n')
+        ml = open(modelout).read().split('\n')
+        for x in (cl, gl, ml):
+            if x and x[-1] == '':
+                x.pop()
+        cl = [l for l in cl if l != '']
+        if not (len(cl) == len(gl) == len(ml)):
+            problems.append({'what': 'line count mismatch cases=%d go=%d model=%d' % (len(cl), len(gl), len(ml))})
+            return
+        known = load_known()
+        for i, (c, g, m) in enumerate(zip(cl, gl, ml)):
+            state['n_eval'] += 1
+            nt, _, obs = g.partition('\t')
+            if m.startswith('U'):
+                state['n_unsup'] += 1
+                state['unsup_reasons'][m[:40]] = state['unsup_reasons'].get(m[:40], 0) + 1
+                if re.search(r'![A-Z][A-Z-]+', obs):
+                    # the property's own oracle, evaluated by the harness on the
+                    # implementation, failed on an input the model declines
+                    violations.append({'index': i, 'case': c, 'go': obs, 'model': m})
+                continue
+            if nt == '1':
+                state['n_nt'] += 1
+                state['distinct_nt'].add(hashlib.md5(c.encode()).digest())
+            if len(state['samples']) < 3 and nt == '1' and (i % 7 == 0 or len(cl) < 30):
+                state['samples'].append({'case': decode_case(c), 'go': obs[:300], 'model': m[:300]})
+            if obs != m:
+                f = match_finding(known, prop, c, obs, m)
+                if f is not None:
+                    known_hits.append((f, c))
                 else:
-                    known = load_known()
-                    for i, (c, g, m) in enumerate(zip(cl, gl, ml)):
-                        n_eval += 1
-                        nt, _, obs = g.partition('\t')
-                        if m.startswith('U'):
-                            n_unsup += 1
-                            unsup_reasons[m[:40]] = unsup_reasons.get(m[:40], 0) + 1
-                            if re.search(r'![A-Z][A-Z-]+', obs):
-                                # the property's own oracle, evaluated by the harness on the
-                                # implementation, failed on an input the model declines
-                                violations.append({'index': i, 'case': c, 'go': obs, 'model': m})
-                            continue
-                        if nt == '1':
-                            n_nt += 1
-                            distinct_nt.add(hashlib.md5(c.encode()).digest())
-                        if len(samples) < 3 and nt == '1' and (i % 7 == 0 or len(cl) < 30):
-                            samples.append({'case': decode_case(c), 'go': obs[:300], 'model': m[:300]})
-                        if obs != m:
-                            f = match_finding(known, prop, c, obs, m)
-                            if f is not None:
-                                known_hits.append((f, c))
-                            else:
-                                violations.append({'index': i, 'case': c, 'go': obs, 'model': m})
+                    violations.append({'index': i, 'case': c, 'go': obs, 'model': m})
+
+    searched = None
+    if okm and okh:
+        correspond(tier, '')
+        # A proof obligation (or a build) is broken but the quick cases show no failing input: search for one
+        # with the thorough generators before reporting no-failing-input-found.
+        if problems and not violations and tier == 'quick' and not a.replay and not os.environ.get('VERIF_NO_ESCALATE'):
+            searched = 'thorough generators'
+            correspond('thorough', '-search')
+
+    stats = state['stats']
+    n_eval, n_nt, n_unsup = state['n_eval'], state['n_nt'], state['n_unsup']
+    distinct_nt, samples, unsup_reasons = state['distinct_nt'], state['samples'], state['unsup_reasons']
 
     wall = time.time() - t0
     # ---- report
@@ -383,6 +410,7 @@ def main(argv):
         rp = os.path.join(ROOT, 'replays', '%s-%s-%d-unchecked.json' % (prop, tier, seed))
         json.dump({'property': prop, 'kind': 'no-failing-input-found',
                    'no_longer_checks': problems,
+                   'searched_for_failing_input_with': searched or ('the %s generators' % tier),
                    'theorems': th['theorems']}, open(rp, 'w'), indent=1)
         for p in problems:
             print('PROBLEM: %s' % p['what'])
@@ -401,6 +429,8 @@ def main(argv):
             'checker_cmd': 'sh coq/build.sh && coqc -Q theories UF theories/Properties/%s.v  (Coq 8.16.1, full .vo build; Print Assumptions under every theorem)' % prop,
             'trusted_base': PROPS.TRUSTED_BASE + cfg.get('trusted_base', []),
             'axioms_reported': axioms,
+            'coqchk': coqchk if coqchk is not None else 'not run in this tier (thorough tier runs coqchk -o on the property file)',
+            'escalated_search': searched,
             'evaluations': n_eval, 'distinct_nontrivial': len(distinct_nt),
             'nontrivial_total': n_nt,
             'rule': cfg.get('rule', ''),
